@@ -104,7 +104,7 @@ func TestVerifC19_sumvec_invalid(t *testing.T) {
 			c19SV(3, 2, 4),
 		},
 		Shares:     []int{2, 3},
-		Seeds:      r.Pick(2, 5),
+		Seeds:      r.Pick(2, 3),
 		ProductCap: r.Pick(4096, 65536),
 		SetLimit:   4096,
 	}
